@@ -362,7 +362,7 @@ pub fn run(cx: &mut Ctx) {
     cx.check(
         "words-generated",
         RULE,
-        Budget { quick: 100_000, thorough: 3_000_000, max_len: 1200 },
+        Budget { quick: 250_000, thorough: 8_000_000, max_len: 1200 },
         |u, st| {
             let n = u.range(1, 32);
             let mut batch: Vec<(u64, &'static str)> = Vec::with_capacity(n);
@@ -398,7 +398,7 @@ pub fn run(cx: &mut Ctx) {
     cx.check(
         "popcount-slices-blocks",
         "G-bits word vectors (0..=600 words, all density classes incl. all-ones) read as a whole slice, at every sub-slice offset 0..=8 and boundary lengths (0,1,7,8,9,15,16,17,31,32,33,63,64,65); every aligned and a sampled unaligned 8-word window as a block: popcount_words, block_popcount_portable and the AVX2 block kernel against a bit loop. Non-trivial: >=1 set bit.",
-        Budget { quick: 40_000, thorough: 2_000_000, max_len: 5000 },
+        Budget { quick: 100_000, thorough: 5_000_000, max_len: 5000 },
         |u, st| {
             let (mut words, mut d) = bits::words(u, 600);
             if u.ratio(1, 6) {
@@ -480,7 +480,7 @@ pub fn run(cx: &mut Ctx) {
     cx.check(
         "scan-select",
         "G-bits word vectors (0..=600 words; sparse/bursty classes make scans skip whole 8-word blocks) x start_word in 0..=words+2 x remaining in {0, ones_from_start-1, ones_from_start, +1, random, usize::MAX}: scan_select, scan_select_scalar (word, in-word rank) and select_from (absolute bit) against a per-word bit-loop walk. Non-trivial: the answer lies past the 8-word prologue (block loop or tail reached).",
-        Budget { quick: 100_000, thorough: 4_000_000, max_len: 5000 },
+        Budget { quick: 200_000, thorough: 10_000_000, max_len: 5000 },
         |u, st| {
             let (words, d) = bits::words(u, 600);
             let n = words.len();
